@@ -35,6 +35,55 @@ fn print_layout() {
         let (s, a) = layout_of(n);
         println!("cap {n} size {s} align {a}");
     }
+    print_pins();
+}
+
+/// `Unpin` facts (autoref specialisation: the by-value impl is chosen iff `T: Unpin`).
+/// The adapters keep their upstream inline, so over a `!Unpin` upstream they must not be
+/// `Unpin`; the collections keep their children behind a heap allocation and are `Unpin`
+/// whatever the children are.
+fn print_pins() {
+    use crate::child::{Fut, KTok, KTry, TryFut, Upstream};
+    use futures_buffered::{
+        BufferUnordered, BufferedOrdered, FuturesOrdered, FuturesOrderedBounded, FuturesUnordered,
+        FuturesUnorderedBounded, JoinAll, TryBufferUnordered, TryBufferedOrdered, TryJoinAll,
+    };
+    use std::marker::PhantomData;
+    struct P<T>(PhantomData<T>);
+    trait Yes {
+        fn unpin(&self) -> u8;
+    }
+    impl<T: Unpin> Yes for P<T> {
+        fn unpin(&self) -> u8 {
+            1
+        }
+    }
+    trait No {
+        fn unpin(&self) -> u8;
+    }
+    impl<T> No for &P<T> {
+        fn unpin(&self) -> u8 {
+            0
+        }
+    }
+    macro_rules! q {
+        ($t:ty) => {
+            (&P::<$t>(PhantomData)).unpin()
+        };
+    }
+    println!(
+        "pins bu={} bo={} tbu={} tbo={} fub={} fu={} fob={} fo={} ja={} tja={}",
+        q!(BufferUnordered<Upstream<KTok>>),
+        q!(BufferedOrdered<Upstream<KTok>>),
+        q!(TryBufferUnordered<Upstream<KTry>>),
+        q!(TryBufferedOrdered<Upstream<KTry>>),
+        q!(FuturesUnorderedBounded<Fut>),
+        q!(FuturesUnordered<Fut>),
+        q!(FuturesOrderedBounded<Fut>),
+        q!(FuturesOrdered<Fut>),
+        q!(JoinAll<Fut>),
+        q!(TryJoinAll<TryFut>)
+    );
 }
 
 struct Pending {
